@@ -154,7 +154,7 @@ impl<R> Archive<R> {
             let offs = header::PRE_HEADER_SIZE + dictionary_size;
             u64::from_le_bytes(header[offs..(offs + 8)].try_into().unwrap())
         };
-        let archive_chunks = dictionary
+        let archive_chunks: Vec<ChunkDescriptor> = dictionary
             .chunk_descriptors
             .into_iter()
             .map(|dict| ChunkDescriptor {
@@ -173,6 +173,11 @@ impl<R> Archive<R> {
             .into_iter()
             .map(|v| v as usize)
             .collect();
+        if source_order.iter().any(|&index| index >= archive_chunks.len()) {
+            return Err(ArchiveError::invalid_archive(
+                "rebuild order refers to a chunk descriptor which does not exist",
+            ));
+        }
         Ok(Self {
             reader,
             archive_chunks,
